@@ -1334,6 +1334,7 @@ LOOP:
 					if r == BOM {
 						if first := len(l.src) == len(l.text); first {
 							l.src = l.src[utf8.RuneLen(BOM):]
+							l.column++
 							continue LOOP
 						}
 						return l.errorf(bomErrorMsg)
